@@ -17,7 +17,7 @@ package aggregate
 // The accumulator of a vectorized table may be a gonum function that panics on an empty slice:
 // it is only ever called with at least one sample.
 //@ extern field:execution/aggregate.vectorTable.accumulator(in) r
-//@   requires[C13] nonempty-input: len(in) > 0
+//@   requires[C04,C13] nonempty-input: len(in) > 0
 //@   pure
 
 // aggregate: one step. The table describes this step only: it is stamped with the step's
